@@ -418,7 +418,8 @@ def r88(ctx, fx):
             lit = lib.hlit(lib.strip(x["args"][0]))
             if not (isinstance(lit, str) and lit.lower() in CONTINUATION_KEYWORDS):
                 continue
-            if c.endswith("tag_no_case"):
+            if c.endswith(("tag_no_case", "::tag")):
+                # (a case-sensitive `tag` is R8.1's finding; where the keyword sits is asked all the same)
                 found.setdefault(lit.lower(), []).append((f, x.get("ln"), wrapper(anc)))
             elif lib.norm(c) in {lib.norm(h) for h in helpers}:
                 w = helpers[[h for h in helpers if lib.norm(h) == lib.norm(c)][0]] or wrapper(anc)
